@@ -104,7 +104,7 @@ def run(rep, ctx, anchor, rule="R5v"):
 # R5w: the order in which a batch prover hands polynomials to `open` is the order of the query grouping
 ADAPTORS = ("iter", "into_iter", "iter_mut", "filter", "map", "filter_map", "enumerate", "rev", "skip", "take", "cloned", "copied",
             "zip", "chain", "peekable", "by_ref", "skip_while", "take_while", "flat_map", "inspect", "deref", "as_ref", "as_slice",
-            "values", "keys", "into_values", "into_keys")
+            "values", "keys", "into_values", "into_keys", "flatten", "fuse", "step_by")
 FILLS = ("push", "push_back", "extend", "insert")
 
 
@@ -220,4 +220,130 @@ def run_order(rep, ctx, key, body, ctx_adt, q_index, polys_arg, rule="R5w"):
             ("the vector of polynomials handed to `open` is filled at %s under a walk over something that does not come from "
              "the query set: the polynomials of a group are opened in that container's order, not in the order of the "
              "group's label set that the verifier uses" % bad), bad or body.span)
+    return n
+
+
+# ---------------------------------------------------------------------------------------------------------
+# R5u: an in-place update of a claimed value reaches every entry once
+SEQ_TYPES = ("std::vec::Vec<", "&[", "[", "std::collections::VecDeque<", "std::slice::Iter<", "std::vec::IntoIter<")
+SET_TYPES = ("std::collections::BTreeSet<", "std::collections::HashSet<", "std::collections::BTreeMap<", "std::collections::HashMap<")
+UPDATERS = ("get_mut", "entry", "index_mut")
+
+
+def _strip_refs(ty):
+    ty = (ty or "").strip()
+    while ty.startswith("&"):
+        ty = ty[1:].lstrip()
+        if ty.startswith("mut "):
+            ty = ty[4:]
+        if ty.startswith("'"):
+            ty = ty.split(" ", 1)[1] if " " in ty else ty
+    return ty
+
+
+def _first_arg(ty, head):
+    """first generic argument of `head<..>` in a type string (bracket matching)."""
+    i = ty.find(head)
+    if i < 0:
+        return None
+    j = i + len(head)
+    depth, k = 0, j
+    while k < len(ty):
+        c = ty[k]
+        if c in "<([":
+            depth += 1
+        elif c in ">)]":
+            if depth == 0:
+                break
+            depth -= 1
+        elif c == "," and depth == 0:
+            break
+        k += 1
+    return ty[j:k].strip()
+
+
+def _components(key_ty):
+    comps = {key_ty}
+    if key_ty.startswith("("):
+        depth, cur = 0, ""
+        for c in key_ty[1:-1]:
+            if c in "<([":
+                depth += 1
+            elif c in ">)]":
+                depth -= 1
+            if c == "," and depth == 0:
+                comps.add(cur.strip())
+                cur = ""
+            else:
+                cur += c
+        comps.add(cur.strip())
+    return comps
+
+
+def run_update_once(rep, ctx, anchor, rule="R5u"):
+    """the working copy of the claimed evaluations is adjusted in place (an equation's constant is moved over). When
+    the entry to adjust is fetched *by key* inside a loop, every key the loop produces adjusts its entry once more: the
+    loop has to walk a duplicate-free collection of the map's keys - the map itself, a set or the keys of a map whose
+    elements are the key or a component of it. A walk over the query set (whose entries carry a point label the map's
+    key does not have) or over a vector filled from it produces the same (label, point) key once per point label."""
+    vi = anchor.roles.get("values")
+    if vi is None or not any(m in anchor.body.locals[vi]["ty"] for m in MAPS):
+        return 0
+    g = ctx.graph(anchor)
+    f = ctx.facts
+    V = LG.views(g, {(anchor.body.id, vi)})
+    # copies of the map count as the map
+    more = True
+    while more:
+        more = False
+        for bid in g.scope:
+            b = f.bodies[bid]
+            for i, t in b.calls():
+                if (t.get("callee") or "").rsplit("::", 1)[-1] == "clone" and t["args"] and t["args"][0]["k"] in ("copy", "move") \
+                        and (bid, t["args"][0]["pl"]["l"]) in V and (bid, t["dst"]["l"]) not in V:
+                    V |= LG.views(g, {(bid, t["dst"]["l"])})
+                    more = True
+    key_ty = _first_arg(_strip_refs(anchor.body.locals[vi]["ty"]), "BTreeMap<") or _first_arg(_strip_refs(anchor.body.locals[vi]["ty"]), "HashMap<") or ""
+    comps = _components(key_ty)
+    n, bad = 0, None
+    for bid in sorted(g.scope):
+        b = f.bodies[bid]
+        loops = None
+        for i, t in b.calls():
+            nm = (t.get("callee") or "").rsplit("::", 1)[-1]
+            if nm not in UPDATERS or not t["args"] or t["args"][0]["k"] not in ("copy", "move") or (bid, t["args"][0]["pl"]["l"]) not in V:
+                continue
+            if not any(m in (b.locals[t["args"][0]["pl"]["l"]]["ty"] or "") for m in MAPS):
+                continue
+            if loops is None:
+                loops = _natural_loops(b)
+            inner = [(h, blocks) for (h, blocks) in loops if i in blocks]
+            if not inner:
+                continue
+            n += 1
+            # the key type as this body spells it (a generic helper says `D` where the entry point says `E::ScalarField`)
+            rty = _strip_refs(b.locals[t["args"][0]["pl"]["l"]]["ty"])
+            key_ty = _first_arg(rty, "BTreeMap<") or _first_arg(rty, "HashMap<") or key_ty
+            comps = _components(key_ty)
+            h, blocks = min(inner, key=lambda z: len(z[1]))
+            for c in _iterator_locals(b, h, blocks):
+                for r in source_roots(b, c):
+                    if (bid, r) in V:
+                        continue
+                    ty = _strip_refs(b.locals[r]["ty"])
+                    while ty.startswith("std::option::Option<"):
+                        ty = _strip_refs(ty[len("std::option::Option<"):-1])      # `map.get(k).into_iter().flatten()`
+                    if ty.startswith(SEQ_TYPES):
+                        bad = bad or (t["span"], "a sequence (%s), which may hold a key several times" % ty[:50])
+                    elif ty.startswith(SET_TYPES):
+                        el = _strip_refs(_first_arg(ty, ty[:ty.index("<") + 1]) or "")
+                        if el not in {_strip_refs(x) for x in comps}:
+                            bad = bad or (t["span"], "a collection keyed by %s, not by the map's key %s or a part of it" % (el[:60], key_ty[:40]))
+    if n == 0:
+        return 0
+    rep.add(rule, "%s:claims-updated-once" % anchor.key, bad is None,
+            ("the %d keyed in-place update(s) of the claimed evaluations are driven by a duplicate-free collection of the map's keys" % n)
+            if bad is None else
+            ("the in-place update at %s fetches the entry by key inside a loop over %s: an entry is adjusted once per "
+             "produced key, not once" % bad), bad[0] if bad else anchor.body.span)
     return n
